@@ -16,6 +16,69 @@ CLAIMS = {
     note="Trusted: Lean kernel (axioms printed in evidence), harness AST→scope-tree dump and HIR walk, the generator's coverage of scope shapes. "
          "The typer's own scoping (LocalTypeEnv) is exercised only through the acceptance oracle.",
     technique="Lean 4 proof (structural induction over the nested AST) + differential correspondence with the Rust resolver"),
+ "C09": dict(
+    category="proof",
+    text="Lean theorems over Model/Anf.lean, a model of anf.rs (anf / anf_imm / anf_list / compile_match_arms_to_anf / anf_file in the same "
+         "continuation-passing shape, gensym counter threaded, including the && / || -> if lowering), stated against the shared big-step "
+         "semantics Sem (world = stdout, Ref store, spawned activations, extern events; failure carries the world at the failure point). "
+         "Proved for every expression of the Lift sub-language (all node kinds: variables, literals, unary/binary operators incl. the short-circuit "
+         "lowering, calls, dyn calls, tuples/arrays/constructors incl. the nullary-constructor tag, let, if, match with default, while, go, field and "
+         "tuple projections, to-dyn) that satisfies the decidable predicate InAnfFragment (no let-bound name of an operand is mentioned by another "
+         "operand of the same node; no handed-out temporary t<m> occurs in the expression): eval_fuel_monotone; anf_preserves_partial (in the "
+         "fuel-monotone form, both directions: whatever e evaluates to - value, stdout, store, spawned activations, failure and failure point - "
+         "anf e evaluates to, and conversely); anf_file_preserves_partial and anf_run_preserves_partial (the same for the whole file produced by "
+         "anf_file, i.e. Sem.run of the ANF file equals Sem.run of the Lift file under either go schedule); anf_preserves_outcome; anf_cont (for EVERY "
+         "expression and continuation, anf e k is the chain of operand bindings around k's result) with anf_chain_fwd / anf_chain_bwd; anf_is_anf "
+         "(every operand of the output is immediate, for every Lift expression); trace corollaries args_left_to_right_once, "
+         "items_left_to_right_once, only_selected_branch, only_selected_arm, short_circuit, while_recheck, while_exit, go_once. Non-vacuity: "
+         "decide-checked examples inside the fragment (effects in argument positions, a failing division between two prints, a short-circuited "
+         "print, a whole file) and two counter-examples outside it (a source variable spelled t0, a shadowing let) where anf changes the result. "
+         "Tie (L1, exact): on every run the model is applied to the REAL Lift dump of every function of the 82-program corpus, of G-prog programs "
+         "and of the effect-placement programs and must equal, node for node including temporary names, numbering and type annotations, both "
+         "the real anf_file output on a fresh Gensym and the pipeline's own ANF (counter offset recovered); the driver also evaluates InAnfFragment "
+         "/ FileInAnfFragment on every real function/file (all inside so far) and isA on every real ANF function. Oracle independent of the model: "
+         "an effect-placement generator (44 expression forms; a printing call, a print inside a branch block, a Ref update, a division by zero, an "
+         "out-of-range array_get or a failing callee in every operand / argument / branch / arm / condition / loop-body / discarded-let / unused-let / "
+         "go position; nested compositions) whose programs are compiled by the real pipeline; the real Core, Mono, Lift, ANF dumps run under Sem "
+         "and the real Go AST under Go.Sem, under both go schedules, and must agree with each other (first divergent stage reported) and with "
+         "the trace the generator itself computes for the source program (labels in evaluation order, final Ref value, failure point).",
+    design_ref="§5 C09, §C09 — as built",
+    note="Proved: the theorems above, about Model/Anf.lean and Sem. Caveat in the theorems: a source run that goes wrong (Fail.stuck = ill-typed IR) "
+         "is only required to be matched by some outcome (ANF names all operands before the operation, so it notices an ill-typed operand later); "
+         "well-typedness of the IR is C03's. Validated only: that the model equals anf.rs (exact tie on every real function, every run); the statement "
+         "lowering of go/compile.rs (compile_aexpr*, compile_while, compile_go) and go/dce.rs - covered by the stage-wise oracle on the Go stage, "
+         "dce.rs is modelled and proved by worker dce; real goroutine interleavings (the semantics offers two schedules: run the activation at "
+         "the spawn / never before the spawner ends). Two small refinements of Sem.lean were needed and agreed: a tag evaluates to the enum value "
+         "of its type, and && / || with a non-boolean left operand get stuck before the right operand is evaluated. Found and fixed: dead-code "
+         "elimination dropped a dead division by zero (known_findings.json, fix commit by worker dce). Trusted: Lean kernel, Sem/Go.Sem, dump "
+         "serialisers, the generator's own trace computation.",
+    technique="Lean 4 proof (CPS-to-direct-style decomposition anf_eq_dec; forward and backward simulation by mutual structural recursion over "
+              "the nested expression type with fuel induction for while and for the whole-file lift) + exact differential correspondence with "
+              "anf.rs + effect-placement generator with stage-wise evaluation under Sem / Go.Sem"),
+ "C06": dict(
+    category="proof",
+    text="Lean theorems over a model of compile_match.rs (move_variable_patterns, branch_variable with its last-maximum rule, the row "
+         "distribution of the unit/bool/int/string/enum/struct/tuple cases, gensym threading, compile_rows with fuel), quantified over ALL "
+         "pattern matrices the compiler accepts (wildcards, variables, unit/bool/integer/string literals, tuples, structs, enum constructors incl. "
+         "generic enums, any nesting, any number of rows and columns), all arm bodies (a type parameter) and all scrutinee values of the right "
+         "shape: compileRows_correct (running the compiled tree reaches exactly the body of the first row all of whose patterns match, in the "
+         "environment extended by generated temporaries and exactly that row's bindings; no row matches => the `missing` failure), "
+         "no_other_arm_runs, no_match_fails, bindings_correct (every pattern variable is bound to the component matchPat assigns it; all other "
+         "non-generated names unchanged), compileRows_correct_sem + toExpr_sem (the same statement for Sem.eval on the Core expression, with exact "
+         "fuel accounting), scrutinee_once / scrutinee_var, int_nonexhaustive_rejected, compileRows_total (fuel above the pattern-size measure "
+         "never runs out: every sub-matrix is strictly smaller), compileRows_counter, realGen_injective / realGen_ne (discharge the gensym "
+         "hypotheses for the compiler's x{n}). Tied to the Rust on every run (L1): every match / destructuring let of the real typed AST of the "
+         "corpus, of exhaustively enumerated / sampled small matrices and of generated programs with nested patterns is compiled by the REAL "
+         "compile_match::compile_file (marker bodies) and the model's Core must equal the real Core up to bound names. Independent oracle: the "
+         "real Core runs under Sem on every value of the scrutinee type up to depth 3 and must behave like firstMatch on the source patterns.",
+    design_ref="§5 C06, 'C06 — as built'",
+    note="Proved about the model; that the model equals compile_match.rs is validated differentially (L1), not proved. Hypotheses of the main "
+         "theorem: gensym injective and fresh (proved for x{n} vs names not starting with x), values of the scrutinee's shape (`conf`, evaluated "
+         "on every generated value), no pattern variable spelled like a column variable (`leavesOK`, decidable on the output, evaluated on every "
+         "real tree). Float patterns and matches on Vec/Ref/dyn panic in the compiler (C04); `missing` at a non-unit Go type is C02's finding; the "
+         "ANF/Go lowering of the tree is covered by C01's stage-wise oracle, not here. Trusted: Lean kernel, Sem as the meaning of Core, "
+         "harness TAST walk and dumps, the driver's alpha-equivalence and value enumeration.",
+    technique="Lean 4 proof (induction over fuel / rows / patterns) + differential correspondence with the real match compiler + first-match oracle on the real Core"),
  "C10": dict(
     category="proof",
     text="Lean theorems over a model of the integer-literal pipeline and of the operator mapping, quantified over the tables regenerated from the "
